@@ -34,7 +34,7 @@ from __future__ import annotations
 from fractions import Fraction
 
 from ..engine.runner import BaseCheck, ShardResult
-from ..engine.adapt import to_x, show
+from ..engine.adapt import to_x
 from ..model.xreal import X
 from ..model import rounding as R
 from ..model import enclose as E
@@ -275,8 +275,24 @@ def _arm(outs) -> str:
     return 'exact'
 
 
+def _fi(n: int) -> str:
+    """decimal when short, hex otherwise (str(int) refuses more than 4300 digits)"""
+    return str(n) if n.bit_length() < 200 else hex(n)
+
+
+def fx(v) -> str:
+    """compact text of an X (or 'ERR'): dyadic values as m*2^e"""
+    if v == 'ERR' or not v.isfin or v.q == 0:
+        return str(v)
+    n, d = v.q.numerator, v.q.denominator
+    if d & (d - 1) == 0 and (d.bit_length() > 20 or abs(n).bit_length() > 60):
+        tz = (abs(n) & -abs(n)).bit_length() - 1
+        return f'{_fi(n >> tz)}*2^{tz - (d.bit_length() - 1)}'
+    return f'{_fi(n)}/{_fi(d)}' if d != 1 else _fi(n)
+
+
 def _fmt_outs(outs):
-    return '{' + ', '.join(f'{o[0]}[inexact={o[1]}]' for o in outs) + '}'
+    return '{' + ', '.join(f'{fx(o[0])}[inexact={o[1]}]' for o in outs) + '}'
 
 
 def _group(fname):
@@ -399,15 +415,15 @@ class Check(BaseCheck):
         try:
             xy = to_x(y)
         except Exception:
-            bad('result-type', f'returned {y!r}')
+            bad('result-type', f'returned a {type(y).__name__}')
             return
         r.outcomes[f'{arm}:{xy.kind}'] += 1
         ok_val = [o for o in outs if o[0] != 'ERR' and o[0].same(xy)]
         if not ok_val:
-            bad('value', f'returned {show(y)} = {xy}')
+            bad('value', f'returned {fx(xy)}')
             return
         if not any((o[1] is None or o[1] == bool(y.inexact)) for o in ok_val):
-            bad('inexact-flag', f'returned {xy} with inexact={y.inexact}')
+            bad('inexact-flag', f'returned {fx(xy)} with inexact={y.inexact}')
 
     def check_point(self, r, fname, x, args, forms, cache, family, params, ovfs, built):
         """all modes of one (function, operands, configuration)"""
@@ -541,11 +557,11 @@ class Check(BaseCheck):
             is_lo = any(o[0] != 'ERR' and o[0].same(xy) for o in lo_outs)
             is_hi = any(o[0] != 'ERR' and o[0].same(xy) for o in hi_outs)
             if not (is_lo or is_hi):
-                bad('not-a-neighbour', f'draw {draw}: returned {xy}; neighbours {_fmt_outs(lo_outs)} / '
+                bad('not-a-neighbour', f'draw {draw}: returned {fx(xy)}; neighbours {_fmt_outs(lo_outs)} / '
                                        f'{_fmt_outs(hi_outs)}')
                 return
             if bool(y.inexact) != inside:
-                bad('inexact-flag', f'draw {draw}: returned {xy} with inexact={y.inexact}; true result '
+                bad('inexact-flag', f'draw {draw}: returned {fx(xy)} with inexact={y.inexact}; true result '
                                     f'{"is not" if inside else "is"} a member of the format')
                 return
             if inside and is_hi:
@@ -636,7 +652,7 @@ class Check(BaseCheck):
             self.judge(r, fname, args, forms, case['family'], P, mode, ovf, ctx, outs, False)
         if r.violations:
             return True, '\n'.join(v.detail for v in r.violations) + f'\n(true result: {x.kind}' + \
-                (f' = {x.value}' if x.is_exact else f', decided with enclosures of up to {x.max_prec_used} bits') + ')'
+                (f' = {fx(X.fin(x.value))}' if x.is_exact else f', decided with enclosures of up to {x.max_prec_used} bits') + ')'
         return False, f'case {case}: implementation returns the correctly rounded result'
 
 
